@@ -33,6 +33,8 @@ type Opts struct {
 	ReadTimeout int
 	QCI         []map[string]int // qci_qos_config entries
 	Slice       map[string]uint64
+	Peers       []string // cpiface.peers: control-plane nodes the agent itself associates with at start-up
+	PeerNames   []string // set on the loaded configuration through the Go API (the file loader only admits IP literals)
 	P4          bool
 	P4Addr      string // host:port of the fake P4Runtime server
 	Extra       map[string]interface{}
@@ -190,6 +192,9 @@ func (s *Sys) confJSON() []byte {
 	if o.Slice != nil {
 		c["slice_rate_limit_config"] = o.Slice
 	}
+	if o.Peers != nil {
+		c["cpiface"].(map[string]interface{})["peers"] = o.Peers
+	}
 	if o.P4 {
 		host, port, _ := net.SplitHostPort(o.P4Addr)
 		c["mode"] = ""
@@ -211,6 +216,9 @@ func (s *Sys) Start() error {
 	}
 	cmd := exec.Command(s.self, "agentd", confPath, s.Bess.Addr)
 	cmd.Env = append(os.Environ(), "GOMEMLIMIT=2GiB")
+	if s.Opts.PeerNames != nil {
+		cmd.Env = append(cmd.Env, "VERIF_PEERS="+strings.Join(s.Opts.PeerNames, ","))
+	}
 	stdin, err := cmd.StdinPipe()
 	if err != nil {
 		return err
@@ -494,6 +502,36 @@ func (s *Sys) NewPeer(newHost bool) (*Peer, error) {
 		return nil, err
 	}
 	return &Peer{S: s, Conn: c, Addr: ip.String(), IP: ip.To4(), seq: 100, Fresh: true}, nil
+}
+
+// NewPeerAt binds a control-plane peer at a fixed address and port (the target of an agent-initiated association).
+func (s *Sys) NewPeerAt(addr string, port int) (*Peer, error) {
+	ip := net.ParseIP(addr)
+	c, err := net.DialUDP("udp", &net.UDPAddr{IP: ip, Port: port}, &net.UDPAddr{IP: net.ParseIP(s.N4), Port: 8805})
+	if err != nil {
+		return nil, err
+	}
+	return &Peer{S: s, Conn: c, Addr: ip.String(), IP: ip.To4(), seq: 100, Fresh: false}, nil
+}
+
+// AcceptAssociation waits for the agent's own Association Setup Request and accepts it.
+func (p *Peer) AcceptAssociation(d time.Duration) bool {
+	deadline := time.Now().Add(d)
+	for time.Now().Before(deadline) {
+		r, ok := p.Recv(time.Until(deadline))
+		if !ok {
+			continue
+		}
+		m, err := message.Parse(r)
+		if err != nil || m.MessageType() != message.MsgTypeAssociationSetupRequest {
+			p.service(r)
+			continue
+		}
+		resp := message.NewAssociationSetupResponse(m.Sequence(), ie.NewNodeID(p.Addr, "", ""), ie.NewCause(ie.CauseRequestAccepted),
+			ie.NewRecoveryTimeStamp(time.Unix(1700000000, 0)))
+		return p.SendRaw(Marshal(resp)) == nil
+	}
+	return false
 }
 
 func (p *Peer) Close() { p.Conn.Close() }
